@@ -300,10 +300,10 @@ def run_history(cell, seed):
             "shadow": {"mode": w.mode}, "notes": notes}
 
 
-FAMILIES_QUICK = {"exact": 3, "svgp": 3, "kiss": 2, "sgpr": 2, "multitask": 2, "fixednoise": 2, "usvgp": 2, "rff": 2, "gridk": 2,
+FAMILIES_QUICK = {"exact": 3, "svgp": 3, "kiss": 3, "sgpr": 3, "multitask": 3, "fixednoise": 3, "usvgp": 3, "rff": 2, "gridk": 2,
                   "svgp_nat": 2, "svgp_mf": 2, "lmc": 2}
-FAMILIES_THOROUGH = {"exact": 4, "svgp": 4, "kiss": 3, "sgpr": 3, "multitask": 3, "fixednoise": 3, "usvgp": 3, "rff": 3, "gridk": 3,
-                     "svgp_nat": 3, "svgp_mf": 3, "lmc": 3, "svgp_delta": 3, "indep_mt": 3, "svgp_trilnat": 3, "gridvar": 3,
+FAMILIES_THOROUGH = {"exact": 5, "svgp": 5, "kiss": 4, "sgpr": 4, "multitask": 4, "fixednoise": 4, "usvgp": 4, "rff": 4, "gridk": 4,
+                     "svgp_nat": 4, "svgp_mf": 4, "lmc": 4, "svgp_delta": 3, "indep_mt": 3, "svgp_trilnat": 3, "gridvar": 3,
                      "orthdec": 3, "matern_ard": 3, "sumprod": 3}
 
 
